@@ -25,6 +25,9 @@ ASSUMPTIONS = ["small-scope ARGs", "tskit itself validates table structure; only
 DECOS = ["plain", "s2^-20", "s2^28", "s1e12", "hist", "internal", "free_leaf", "isolated", "isolated_mut", "migrations", "unphased", "no_sites"]
 
 
+SHARP = {"U332#41": ["plain", "s2^28", "s1e12"], "U431#51": ["plain", "isolated"], "U431#42": ["plain", "isolated_mut"]}
+
+
 def warmup():
     dating.warmup_all()
 
@@ -35,16 +38,32 @@ def cases(tier, seed):
     for a in sp.args:
         E = tsspace.arg_ts(a).num_edges
         pats = [("ones", [1] * E), ("mod3", [i % 3 for i in range(E)]), ("lastonly", [0] * (E - 1) + [2])]
+        pats += [("first", [1] + [0] * (E - 1))]
         if tier != "quick":
-            pats += [("spike", [5] + [1] * (E - 1)), ("first", [1] + [0] * (E - 1))]
+            pats += [("spike", [5] + [1] * (E - 1))]
         for (pn, pat), deco in itertools.product(pats, DECOS):
+            if tier == "quick" and pn == "first" and deco not in ("plain", "unphased", "hist"):
+                continue  # a single (possibly unphased) singleton: rounding residue in the rescaling intervals (F21)
             if deco in ("isolated", "isolated_mut") and a["L"] < 2:
                 continue
             if deco == "unphased" and a["n"] not in (2, 4):
                 continue
             out.append({"arg": a, "mut": pat, "deco": deco, "above_root": int(pn == "mod3")})
-    out += [{"invalid": True, "arg": sp.args[i], "mut": [1] * tsspace.arg_ts(sp.args[i]).num_edges} for i in (1, len(sp.args) // 2, len(sp.args) - 1)]
-    return {"cases": out, "states": sp.states, "transitions": sp.transitions, "bound": f"{sp.describe()} x mutation menu x decorators {DECOS} x methods x option menu x return flags; invalid-parameter menu on 3 inputs", "exhaustive": True}
+    if tier == "quick":
+        # inputs from the thorough universes on which that tier found defects (F20, F22, F23): kept in the quick tier too
+        th = {a["id"]: a for a in tsspace.space("thorough").args}
+        for aid, decos in SHARP.items():
+            a = th[aid]
+            E = tsspace.arg_ts(a).num_edges
+            for pat in ([1] * E, [i % 3 for i in range(E)], [0] * (E - 1) + [2], [1] + [0] * (E - 1)):
+                for deco in decos:
+                    out.append({"arg": a, "mut": pat, "deco": deco, "above_root": 0})
+        out.append({"invalid": True, "arg": th["U510#14"], "mut": [1] * 5})
+    # invalid-parameter menu: every single-tree input (incl. the star trees, on which a bad rate is not masked by an unrelated
+    # 'dangling nodes' rejection: finding F20) and a spread of the many-tree ones
+    inv = sorted({i for i, a in enumerate(sp.args) if a["trees"] == 1} | {1, len(sp.args) // 2, len(sp.args) - 1} | set(range(0, len(sp.args), 97 if tier == "quick" else 29)))
+    out += [{"invalid": True, "arg": sp.args[i], "mut": [1] * tsspace.arg_ts(sp.args[i]).num_edges} for i in inv]
+    return {"cases": out, "states": sp.states, "transitions": sp.transitions, "bound": f"{sp.describe()} x mutation menu x decorators {DECOS} x methods x option menu x return flags; invalid-parameter menu on {len(inv)} inputs (all single-tree ARGs + a spread of the others)", "exhaustive": True}
 
 
 def decorate(case):
@@ -127,6 +146,7 @@ def facts_for(ts, e, method, cfg, s):
         smp = set(int(u) for u in ts.samples())
         contemporary = all(ts.nodes_time[u] == 0 and u not in parents for u in smp) and all(u in smp for u in leaves)
         f["noncontemporary_or_no_edge_mutations"] = bool((not contemporary) or mcount.sum() == 0)
+        f["noncontemporary"] = bool(not contemporary)
     if isinstance(e, tskit.LibraryError):
         f["library_error"] = msg[:60]
         t = ts.nodes_time
